@@ -650,11 +650,14 @@ class PixelAlgorithms(AccessorBase):
             coords = {k: c for k, c in xx.coords.items() if "time" not in c.dims}
             return xarray.DataArray(data=data, dims=xx.dims[1:], coords=coords)
 
+        # nodata may be None: handed over as a keyword it reaches the kernel as it
+        # is, also for dask-backed data (as an argument, apply_ufunc wraps None into
+        # a 0-d object array, which the kernel cannot type)
         return xarray.apply_ufunc(
             ops.autocorr,
             xx,
-            nodata,
-            input_core_dims=[["time"], []],
+            kwargs={"nodata": nodata},
+            input_core_dims=[["time"]],
             dask="parallelized",
             output_dtypes=["float32"],
         )
